@@ -121,7 +121,7 @@ PROPS["C05"] = render_prop(
 PROPS["C06"] = render_prop(
     "Theorems: Combine falls through only on Absent (not on present-nil, not on failure), a chain of scopes resolves to the first non-absent entry, the render scope is data then global (built-ins last), with/range bindings shadow and resolve everything else outside, siblings are rendered in the list's scope (bindings never flow to a sibling or back to the parent); tied to the code by diffing nested with/range shadowing of data/global/built-in names.",
     "reflect-level lookup (getValue) is modelled, validated by the eval stream.",
-    extra_streams=[dict(name="eval", family="eval", quick=2000, thorough=100000, nontrivial=r".")])
+    extra_streams=[dict(name="eval", family="eval", quick=2000, thorough=100000, nontrivial=r"."), REF_STREAM])
 PROPS["C07"] = render_prop(
     "Theorems: define is never rendered in place, insert appends the fragment's output inside the host tag and replace writes it instead of the host, both discard the host's children and evaluate the fragment in the call-site scope on a fresh object, unknown names are template-not-found, only a first/last blank text child is trimmed, and the name table does not depend on load order (for permuted file lists); tied to the code by diffing 1-3 files in random load order with fragments before/after use, nested, computed names.",
     "")
